@@ -351,7 +351,7 @@ def run_impl(c):
 
 
 # ------------------------------------------------------------------ generator
-FILTER_INTERNAL_FIRST = False   # True while the repo lacks the normalize_key(for_dump=True) repair (repo commit d50699d)
+FILTER_INTERNAL_FIRST = False   # only for a repo without the normalize_key(for_dump=True) repair (repo commit d50699d)
 
 
 def _internal_after_mapped(c):
